@@ -91,6 +91,10 @@ def gen_script(rng, lean_exe, max_ops):
         cur, cos = 0, {i: (0, 0, None, None) for i in range(n)}
         cos[0] = (1, 0, None, None)
         inited, ever_started = {0}, set()
+        # target[x] = the coroutine x's pending cmi_coroutine_transfer went to; the debug assert after the switch
+        # (cmi_coroutine_stack_valid(to), cmi_coroutine.c:255) wants that one to have a stack still when x continues,
+        # so a coroutine some suspended one is waiting "on" is not re-initialised (documented-precondition level)
+        pend_to = {}
         val = [rng.randint(1, 9)]
 
         def nv():
@@ -135,7 +139,11 @@ def gen_script(rng, lean_exe, max_ops):
                     st["exit_parent_ne_caller"] += 1
             if kind == "create":
                 inited.add(int(w[1]))
+            prev_cur = cur
             _, cur, cos = ps
+            if cur != prev_cur:
+                pend_to[prev_cur] = cur
+                pend_to.pop(cur, None)
             return True
 
         # create most coroutines first
@@ -186,7 +194,8 @@ def gen_script(rng, lean_exe, max_ops):
                 attempt("reset %d" % c, False)
             else:
                 c = rng.randrange(1, n)
-                attempt("create %d %d" % (c, 100 + c + 10 * rng.randint(0, 3)), False)
+                if c not in pend_to.values():
+                    attempt("create %d %d" % (c, 100 + c + 10 * rng.randint(0, 3)), False)
         if cur != 0:
             attempt("transfer 0 %d" % nv(), True)
         return lines, outs, st
